@@ -14,16 +14,35 @@ Import ListNotations.
 Open Scope N_scope.
 From Coq Require Import String. Open Scope string_scope. Open Scope N_scope. Open Scope list_scope.
 
+(* literals, evaluated to byte lists at definition time (so that the extracted
+   model contains no Coq strings) *)
+Definition lit_title : bytes := Eval vm_compute in s2b "title".
+Definition lit_description : bytes := Eval vm_compute in s2b "description".
+Definition lit_issue : bytes := Eval vm_compute in s2b "issue".
+Definition lit_type : bytes := Eval vm_compute in s2b "type".
+Definition lit_program : bytes := Eval vm_compute in s2b "program".
+Definition lit_module : bytes := Eval vm_compute in s2b "module".
+Definition lit_counter : bytes := Eval vm_compute in s2b "counter".
+Definition lit_depth : bytes := Eval vm_compute in s2b "depth".
+Definition lit_error : bytes := Eval vm_compute in s2b "error".
+Definition lit_version : bytes := Eval vm_compute in s2b "version".
+Definition lit_slice : bytes := Eval vm_compute in s2b "slice".
+Definition lit_int : bytes := Eval vm_compute in s2b "int".
+Definition lit_float64 : bytes := Eval vm_compute in s2b "float64".
+Definition lit_string : bytes := Eval vm_compute in s2b "string".
+Definition lit_sep : bytes := Eval vm_compute in s2b "---".
+Definition lit_counter_colon : bytes := Eval vm_compute in s2b "counter:".
+
 (* ---- keys = lower-cased field names of ChartConfig, in struct order *)
 Inductive key := KTitle | KDescription | KIssue | KType | KProgram | KModule
                | KCounter | KDepth | KError | KVersion.
 
 Definition key_name (k : key) : bytes :=
   match k with
-  | KTitle => s2b "title" | KDescription => s2b "description" | KIssue => s2b "issue"
-  | KType => s2b "type" | KProgram => s2b "program" | KModule => s2b "module"
-  | KCounter => s2b "counter" | KDepth => s2b "depth" | KError => s2b "error"
-  | KVersion => s2b "version"
+  | KTitle => lit_title | KDescription => lit_description | KIssue => lit_issue
+  | KType => lit_type | KProgram => lit_program | KModule => lit_module
+  | KCounter => lit_counter | KDepth => lit_depth | KError => lit_error
+  | KVersion => lit_version
   end.
 Definition all_keys : list key :=
   [KTitle; KDescription; KIssue; KType; KProgram; KModule; KCounter; KDepth; KError; KVersion].
@@ -38,7 +57,7 @@ Definition is_slice (k : key) : bool := match k with KIssue => true | _ => false
 (* Go kind of the field, for the correspondence of the key table *)
 Definition key_kind (k : key) : bytes :=
   match k with
-  | KIssue => s2b "slice" | KDepth => s2b "int" | KError => s2b "float64" | _ => s2b "string"
+  | KIssue => lit_slice | KDepth => lit_int | KError => lit_float64 | _ => lit_string
   end.
 
 Record chart := mkChart {
@@ -106,8 +125,8 @@ Definition flush (st : pstate) : pstate :=
 
 Definition key_set (k : key) (set : list key) : bool := existsb (key_eqb k) set.
 
-Definition sep_line : bytes := s2b "---".
-Definition counter_prefix : bytes := s2b "counter:".
+Definition sep_line : bytes := lit_sep.
+Definition counter_prefix : bytes := lit_counter_colon.
 
 Section Parse.
   Variable parse_float : bytes -> option N.   (* strconv.ParseFloat(s, 64): bits, None = error *)
